@@ -227,4 +227,21 @@ theorem authenticateReq_cases (cfg : Config) (x : Ctx) (p : Peer) (req : Json) :
       | some auth =>
         refine Or.inr ⟨u, pw, auth, rfl, by simpa using hf, hb, rfl⟩
 
+theorem success_has_no_error {req j : Json} (h : successFromRequest req = some j) : j.getItem (k "error") = none := by
+  unfold successFromRequest resultFromRequest at h
+  split at h
+  · unfold resultResponse commonResponse at h
+    have h1 : keyEq (k "id") (k "error") = false := by decide +kernel
+    have h2 : keyEq (k "result") (k "error") = false := by decide +kernel
+    split at h
+    · simp only [Option.map_some, Option.some.injEq] at h
+      subst h
+      simp [Json.getItem, findItem, h1, h2]
+    · simp only [Option.map_some, Option.some.injEq] at h
+      subst h
+      simp [Json.getItem, findItem, h1, h2]
+    · cases h
+  · cases h
+
+
 end Cjet.Daemon.C08
